@@ -55,6 +55,27 @@ func c07do(c *Ctx, st *c07state, op Op, rng *rand.Rand, ev Ev, name string, v in
 	}
 	q := st.q
 	n := q.Len()
+	if has(op, "full") && geti(op, "full") == 2 || !has(op, "full") && !has(op, "offs") && rng != nil && rng.Intn(5) == 0 {
+		// sparse observation: at most one Peek and nothing else before the next call (the queue
+		// must not depend on being looked at to put itself in order)
+		ev["full"] = 2
+		offs := []int{}
+		if has(op, "offs") {
+			offs = getis(op, "offs")
+		} else if rng.Intn(2) == 0 {
+			offs = []int{rng.Intn(2*n+3) - n - 1}
+		}
+		ev["offs"] = ints(offs)
+		peeks := make([][3]int, 0, len(offs))
+		for _, k := range offs {
+			pv, ok := q.Peek(k)
+			peeks = append(peeks, [3]int{k, pv, b2i(ok)})
+		}
+		ev["peeks"] = peeks
+		head, rn, size := queueState(q)
+		ev["head"], ev["rn"], ev["cap"] = head, rn, size
+		return
+	}
 	ev["len"] = n
 	ev["empty"] = q.IsEmpty()
 	ev["front"] = q.Front()
